@@ -83,6 +83,13 @@ def run(repo, R):
             R.ok("LIN", f.site, f"[{name}] one contraction per shell with its own coefficients", detail=str(ret.e)[:160])
         # KSEP events
         for kind, g, node, shell in ex.shared.get("events", []):
+            if kind.startswith("K-filter:"):
+                what = kind.split(":", 1)[1]
+                if what == "some-coefficient-nonzero":
+                    continue  # dropping primitives whose coefficients are all zero changes nothing
+                R.fail("KSEP", g.site, ast.unparse(node)[:80], f"[{name}] primitives of shell {shell} are selected by the mask `{what}` in `{ast.unparse(node)[:60]}`: a "
+                       "primitive is dropped from every contraction although it still contributes to some (only primitives whose coefficients are all zero may go)",
+                       where=g.where(node))
             if kind in ("K-index", "K-slice", "K-reduce"):
                 R.fail("KSEP", g.site, ast.unparse(node)[:80], f"[{name}] the primitive axis of shell {shell} is {kind[2:]}ed in `{ast.unparse(node)[:70]}`: the result "
                        f"would depend on the order / splitting of the primitives", where=g.where(node))
